@@ -478,6 +478,8 @@ func (p *pool) exec(w *wproc, it queuedJob) *wproc {
 			dv.Hist, dv.Cfg, dv.Family = []int64{o.mIdx}, t.N, -1
 		case "lpburst":
 			dv.Cfg, dv.Family = t.N, -2
+		case "lpreconf":
+			dv.Cfg, dv.Family = t.N, -3
 		case "lpseq":
 			pi, k := o.mIdx/int64(len(lpAlphabet)), o.mIdx%int64(len(lpAlphabet))
 			if int(pi) < len(t.Prefix) {
